@@ -7,13 +7,13 @@
    of Parameters, validator chains of any length whose members are arbitrary functions value -> outcome value,
    every strict / return_as / ignore_input setting and every call.
 
-   Guards (boolean, see Proofs/ValidateGate.v):
+   Guard (boolean, see Proofs/ValidateGate.v):
      self_guard  - the name `self` arrives only as the implicit first positional argument and is not the name
-                   of a Parameter (fn_deco_validate.py treats that name specially);
-     gate_guard  - return_as is not ARGS, or every name that reaches the call is a parameter of the function,
-                   or the function takes **kwargs, or the call is a method call.
-   Outside gate_guard the property is FALSE on the current source (C12_gate_refuted, known finding
-   C12-K1-args-arrival-order-on-unknown-name): _as_args falls back to arrival order.                           *)
+                   of a Parameter (fn_deco_validate.py treats that name specially).
+   History: until /repo commit d10af45 `_as_args` fell back to arrival order when a name outside the signature
+   reached a function without **kwargs (finding C12-K1, then C12_gate_refuted / C12_gate_partial); the fallback is
+   gone, the configuration field aa_arrival_on_unknown_key is false, and the gate holds without that guard.
+   C12_K1_witness_fixed keeps the old witness.                                                                *)
 From Coq Require Import List Arith Bool Permutation.
 From PV Require Import Base.Exn Model.ValidateSem Spec.ValidateSpec Proofs.ValidateDict Proofs.ValidateRef
   Proofs.ValidateBind Proofs.ValidateGate Proofs.ValidateByName Gen.Validate.
@@ -53,18 +53,16 @@ Proof.
 Qed.
 Print Assumptions C12_chain_in_order.
 
-(* THE GATE.  Full statement (false, see C12_gate_refuted):
-     forall ... c, self_guard c = true -> vrun c = (j, FBody b) -> forall n v, In (n, v) b -> origin c n v.
-   Every value in the body's binding is (origin): the chain output of its Parameter on the value the caller passed
-   for that name; or, the caller passing none, the chain output on the value of its external source; or, the
-   caller passing none, its Parameter default; or the signature default of that name; or - no Parameter declared,
-   strict off (or the name is self) - the caller's value itself.                                                *)
-Theorem C12_gate_partial : forall value is_none sg env dc is_async c j b,
-  self_guard value sg dc c = true -> gate_guard value sg dc c = true ->
+(* THE GATE.  Every value in the body's binding is (origin): the chain output of its Parameter on the value the
+   caller passed for that name; or, the caller passing none, the chain output on the value of its external source;
+   or, the caller passing none, its Parameter default; or the signature default of that name; or - no Parameter
+   declared, strict off (or the name is self) - the caller's value itself.                                     *)
+Theorem C12_gate : forall value is_none sg env dc is_async c j b,
+  self_guard value sg dc c = true ->
   vrun is_none sg env dc is_async c = (j, FBody b) ->
   forall n v, In (n, v) b -> origin value is_none sg dc c n v.
 Proof. intros value is_none. rewrite vrun_ref. apply gate. Qed.
-Print Assumptions C12_gate_partial.
+Print Assumptions C12_gate.
 
 (* ---- a small universe for witnesses: values are numbers, 0 plays None ---- *)
 Definition nnone (v : nat) : bool := Nat.eqb v 0.
@@ -77,29 +75,18 @@ Definition mksig (ps : list (name * option nat)) : signature nat :=
   {| s_params := map (fun nd => {| sp_name := fst nd; sp_kwonly := false; sp_default := snd nd |}) ps; s_varkw := false |}.
 Definition no_env : wenv := {| w_flask_installed := false; w_request := None |}.
 
-(* known finding C12-K1: def f(b=5, a=0), Parameter a / at most 1, strict=False, return_as=ARGS; f(a=1, c=2) runs
-   the body with a=2, b=1: the 2 never went through the chain of a (names: a=1, b=2, c=3) *)
+(* former finding C12-K1 (fixed by d10af45): def f(b=5, a=0), Parameter a / at most 1, strict=False, return_as=ARGS;
+   f(a=1, c=2) used to run the body with a=2, b=1; now the unexpected keyword c ends in Python's TypeError, the
+   body does not run (names: a=1, b=2, c=3) *)
 Definition k1_sig := mksig [(2, Some 5); (1, Some 0)].
 Definition k1_deco : deco nat :=
   {| d_params := [mkparam 1 [at_most 1] true None]; d_mode := ARGS; d_strict := false; d_ignore_input := false |}.
 Definition k1_call : call nat := {| c_args := []; c_kwargs := [(1, 1); (3, 2)] |}.
 
-Theorem C12_gate_refuted : exists sg env dc is_async c j b n v,
-  self_guard nat sg dc c = true /\ gate_guard nat sg dc c = false /\
-  vrun nnone sg env dc is_async c = (j, FBody b) /\ In (n, v) b /\ ~ origin nat nnone sg dc c n v.
-Proof.
-  exists k1_sig, no_env, k1_deco, false, k1_call, [(1, 0, 1)], [(2, 1); (1, 2)], 1, 2.
-  repeat split; try reflexivity.
-  - right. now left.
-  - intro H. destruct H as [p w Ip Hn [_ G] S|p w Ip Hn Abs _ _|p Ip Hn Abs _|sp Isp Hn D|Dcl _ _].
-    + destruct Ip as [<-|[]]. cbn in G. destruct G as [G|[G|[]]]; [|discriminate G].
-      injection G as <-. vm_compute in S. discriminate S.
-    + apply (Abs 1). split; [reflexivity | now left].
-    + apply (Abs 1). split; [reflexivity | now left].
-    + destruct Isp as [<-|[<-|[]]]; [discriminate Hn | discriminate D].
-    + discriminate Dcl.
-Qed.
-Print Assumptions C12_gate_refuted.
+Example C12_K1_witness_fixed :
+  self_guard nat k1_sig k1_deco k1_call = true /\ names_fit nat k1_sig k1_deco k1_call = false /\
+  vrun nnone k1_sig no_env k1_deco false k1_call = ([(1, 0, 1)], FRaise TypeErrorC None).
+Proof. repeat split. Qed.
 
 (* ANY REJECTION RAISES BEFORE THE BODY.  A value the caller passes for a declared Parameter that does not pass
    the chain (rejected at any position, or a foreign exception in a validator): the body does not run *)
@@ -175,7 +162,7 @@ Print Assumptions C12_required_none_missing.
    body reached: it is not required, and the body sees the Parameter default if there is one (KWARGS_WITHOUT_NONE:
    unless that default is None), else the signature default - a third case does not reach the body *)
 Theorem C12_default_cascade : forall value is_none sg env dc is_async c j b p,
-  self_guard value sg dc c = true -> gate_guard value sg dc c = true ->
+  self_guard value sg dc c = true ->
   NoDup (map (@p_name value) (d_params dc)) ->
   vrun is_none sg env dc is_async c = (j, FBody b) ->
   In p (d_params dc) -> (forall w, ~ caller_gives value sg dc c (p_name p) w) -> no_external value p ->
@@ -195,7 +182,7 @@ Definition ex_deco (m : return_as) (strict : bool) : deco nat :=
 
 Example C12_gate_hypotheses_satisfiable :
   let c := {| c_args := [3]; c_kwargs := [(2, 4)] |} in
-  self_guard nat ex_sig (ex_deco ARGS true) c = true /\ gate_guard nat ex_sig (ex_deco ARGS true) c = true /\
+  self_guard nat ex_sig (ex_deco ARGS true) c = true /\
   vrun nnone ex_sig no_env (ex_deco ARGS true) false c =
     ([(2, 0, 4); (1, 0, 3); (1, 1, 3)], FBody [(1, 4); (2, 5); (3, 4)]).
 Proof. repeat split. Qed.
